@@ -140,6 +140,14 @@ def check(run, tier):
                     # a field of the zone built from it before validation)
                     pv, av = seen["pointees"][i], seen["arg_values"][i]
                     ok = ok and isinstance(fld, Ref) and pv is not None and same_shape(pv, av)
+            # PAIR-COVER: a counting loop of the validation that compares neighbours (reads seq[i+d] for two
+            # different d) must start so that the first element it looks at is element 0
+            pair_loops = [lr for lr in I.loop_reads if len(lr["offsets"]) >= 2]
+            badp = [lr for lr in pair_loops if lr["start"] + min(lr["offsets"]) != 0]
+            run.obligation(not badp)
+            run.sample({"rule": "PAIR-COVER", "constructor": r, "neighbour loops (function, start, offsets)": [(lr["function"].rsplit("::", 1)[-1], lr["start"], lr["offsets"]) for lr in pair_loops]})
+            for lr in badp:
+                run.finding("PAIR-COVER", "%s|%s|%s|start" % (cfg, r, lr["function"].rsplit("::", 1)[-1]), "a validation loop in %s compares neighbouring elements seq[i%+d] .. seq[i%+d] but starts at i = %d: the pair beginning at element 0 is never examined" % (lr["function"], min(lr["offsets"]), max(lr["offsets"]), lr["start"]), insts[r].get("span"))
             run.obligation(ok)
             if not ok:
                 run.finding("GATE", "%s|%s|receiver" % (cfg, r), "the validator called by %s is not applied to exactly the constructor's four arguments" % r, insts[r].get("span"))
@@ -281,7 +289,7 @@ def check(run, tier):
             run.sample({"rule": "EQ-FIELDS", "comparison": eqs[0][1]["name"] if eqs else None, "fields read (lhs, rhs)": reads, "InconsistentExtraRule guarded by its false result": guarded})
             if not ok:
                 run.finding("EQ-FIELDS", "%s|eq-fields" % cfg, "the comparison guarding InconsistentExtraRule does not read offset, DST flag and designation of both local time types (reads %s; guarded=%s)" % (reads, guarded), V.get("span"))
-    run.floor("obligations", run.obligations, 20)
+    run.floor("obligations", run.obligations, 22)
     run.trusted += ["E-AI (see C07)", "dominance / call resolution on the exporter's monomorphic MIR"]
     run.explanation = EXPLANATION
     run.extra["not_decided"] = ["the rule's type at the last transition's instant is computed correctly (C04)", "exact equivalence of the ordering and leap-second predicates (guards are not compared with a specification in this version)", "designation alphabet as an exact 64-value set (only the length window and the error kind are compared)"]
